@@ -25,6 +25,9 @@
 (*  S5 as many values as IDs     S6 no staleness marker                    *)
 (*  S7 after the end only end (or an error) is returned                    *)
 (*  S8 Next is never called while another Next of the operator is running  *)
+(*  S9 the end is signalled only after every step of the operator's grid   *)
+(*     has been delivered (an operator without series delivers empty step  *)
+(*     vectors: a consumer such as scalar() has a value for such a step)   *)
 (***************************************************************************)
 EXTENDS Integers, Sequences, FiniteSets, TLC, Json, SequencesExt
 
@@ -99,11 +102,13 @@ NextEv ==
                 THEN Bad(e.q, e.op, "S4", o.kind) ELSE {}
          s5 == IF \E i \in 1..nb : e.b[i].nv # Len(e.b[i].ids) THEN Bad(e.q, e.op, "S5", o.kind) ELSE {}
          s6 == IF \E i \in 1..nb : e.b[i].stale # 0 THEN Bad(e.q, e.op, "S6", o.kind) ELSE {}
+         s9 == IF e.ret = "end" /\ ~o.ended /\ o.delivered < total
+                THEN Bad(e.q, e.op, "S9", o.kind \o " ends after " \o ToString(o.delivered) \o " of " \o ToString(total) \o " steps") ELSE {}
          o2 == [o EXCEPT !.lastRet = e.seq,
                          !.ended = @ \/ e.ret = "end",
                          !.delivered = IF e.ret = "batch" THEN @ + nb ELSE @]
      IN /\ qs' = [qs EXCEPT ![qi].ops[oi] = o2]
-        /\ viol' = viol \cup s8 \cup s7 \cup s2 \cup s3 \cup s4 \cup s5 \cup s6
+        /\ viol' = viol \cup s8 \cup s7 \cup s2 \cup s3 \cup s4 \cup s5 \cup s6 \cup s9
   /\ stat' = [stat EXCEPT !.nexts = @ + 1,
                           !.batches = @ + (IF Trace[l].ret = "batch" THEN 1 ELSE 0),
                           !.vectors = @ + Len(Trace[l].b),
